@@ -38,7 +38,8 @@ CHECKS = {
         "RolloutBuffer.compute_returns_and_advantages in x64 and compared with a float64 loop written from the statement; "
         "metamorphic cut law, lambda=0/1 limits, vmapped streams, and buffers captured from the real iteration() of PPO/A2C/REINFORCE "
         "on finite MDPs are checked per environment row against GAE cut at the episode ends the environment produced (replayed by "
-        "the reference interpreter, not read from the buffer's done column). Sampling cannot prove the identity for all reals; the done-pattern dimension "
+        "the reference interpreter, not read from the buffer's done column); gamma / lambda reach the algorithm through its constructor "
+        "(lambda 0 / 1 also typed as ints). Sampling cannot prove the identity for all reals; the done-pattern dimension "
         "is exhaustive for small T.",
         design="DESIGN.md §4 C03",
         note="Trusted: NumPy float64 arithmetic, vlib/refs.py GAE loop (validated by 6 mutants of rollout.py, all caught).",
@@ -67,7 +68,7 @@ CHECKS = {
     "C06": dict(
         technique="stateful (rule-based machine) property-based testing against a deque model; Hypothesis @given for joint sampling",
         text="Hypothesis rule-based machine over add/sample histories with capacity 1..12 and pytree observation/action spaces; every "
-        "row encodes its insertion number in every field so field alignment, contents == most recent min(n,C) and sample validity "
+        "row encodes its insertion number in every field (policy-state leaves on top of 2^24+1, so a silent cast to float32 corrupts them) so field alignment, contents == most recent min(n,C) and sample validity "
         "(stored, no duplicates, no unwritten slot) are decidable after every step; joint sampling over stacked per-env buffers "
         "with unequal fill levels including empty and wrapped ones.",
         design="DESIGN.md §4 C06",
@@ -183,7 +184,8 @@ CHECKS = {
         "without .eqx, nested new directories, spaces, paths already holding an older checkpoint): every array leaf bit-identical "
         "(dtype, shape, bytes) and equal outputs, for policies saved exactly as constructed and for ones rebuilt with moved parameters "
         "(Dict observation spaces with keys in non-sorted order); loading into a policy with one architecture argument / observation / action "
-        "dimension changed or two arguments swapped must raise.",
+        "dimension changed or two arguments swapped, in both directions (checkpoint larger or smaller than the target), incl. all-square "
+        "layers where only a depth differs, must raise.",
         design="DESIGN.md §4 C18",
         note="Trusted: filesystem; Python-scalar fields compared at float32 precision. 6 mutants caught, 2 equivalent mutants discarded (equinox re-adds the suffix itself).",
     ),
@@ -196,7 +198,8 @@ CHECKS = {
         "unobserved run up to reassociation-level rounding (rtol 1e-4 / atol 1e-5 on float leaves, integer leaves exactly: an observed "
         "run is a different XLA program and was measured 1 ulp apart; a desynchronised key or observer feedback moves parameters by "
         "O(learning rate)). One single-iteration run per algorithm (exempt from the other-key clause: a first Adam step is sign-only) and one "
-        "three-iteration run per on-policy algorithm with a learning-rate warm-up from 0 extend the configurations.",
+        "three-iteration run per on-policy algorithm with a learning-rate warm-up from 0 extend the configurations; the same training "
+        "(5-entry Dict observation) in four fresh interpreter processes with different PYTHONHASHSEED values must give one digest.",
         design="DESIGN.md §4 C11",
         note="Trusted: bit-identity within one process/XLA build is what the statement needs. Each (algorithm, env, config, observer structure) costs a learn() compile, so the number of configurations is small (10 quick / 40 thorough). 4 mutants caught, 1 equivalent discarded.",
     ),
@@ -282,7 +285,7 @@ def main():
         ],
         "checks": checks,
         "not_applicable": [{"property_id": p, "reason": PENDING_REASON} for p in props if p not in CHECKS],
-        "notes": "Baseline on the repaired tree (26 fix: commits, guard-free): 160 passed, 7 failed - exactly BASELINE.json's stable_pass / always_fail sets (tests/test_export.py fails without any change). All checks are generated-input search against explicit oracles; VERIF_SEED seeds every Hypothesis run; exit 2 = harness error (never reported as a violation). known_findings.json lists recorded/fixed defects.",
+        "notes": "Baseline on the repaired tree (28 fix: commits, guard-free): 160 passed, 7 failed - exactly BASELINE.json's stable_pass / always_fail sets (tests/test_export.py fails without any change). All checks are generated-input search against explicit oracles; VERIF_SEED seeds every Hypothesis run; exit 2 = harness error (never reported as a violation). known_findings.json lists recorded/fixed defects.",
     }
     (VERIF / "MANIFEST.json").write_text(json.dumps(manifest, indent=1) + "\n")
     print(f"MANIFEST.json: {len(checks)} checks, {len(manifest['not_applicable'])} not claimed")
